@@ -72,7 +72,8 @@ def build_insert(w, node_shape, ndel, children, date, caller, entity):
     if old:
         old_author = w.atom(tag + '_oldauthor', KEYS, 'bytes', n=33)
         old_room = w.atom(tag + '_oldroom', ROOMS, 'uid', n=16) if old == 2 else None
-        old_node = w.node(id=nid, room_id=old_room, cdate=w.i64(tag + '_ocdate'), mdate=w.i64(tag + '_omdate'),
+        old_mdate = w.i64(tag + '_omdate')
+        old_node = w.node(id=nid, room_id=old_room, cdate=w.i64(tag + '_ocdate'), mdate=old_mdate,
                           entity=w.atom(tag + '_oshort', None, 'str'), author=old_author)
     ntm = w.struct('NodeToMutate', id=nid, date=date, entity=entity, room_id=w.opt(room), node=w.opt(node),
                    node_fts_str=none(), old_node=w.opt(old_node), old_fts_str=none(), enable_full_text=True)
@@ -99,6 +100,7 @@ def build_insert(w, node_shape, ndel, children, date, caller, entity):
     info = Built()
     info.level, info.entity, info.room, info.has_node, info.old_author, info.old_room, info.size, info.ndel = 0, entity, room, has_node, old_author, old_room, size, ndel
     info.old = old
+    info.old_mdate = old_mdate if old else None
     info.ie = ie
     info.kids = kids
     info.children = children
@@ -249,14 +251,15 @@ def scenario_mutation(ctx, m, kind, info):
     nid = deref(w.field(w.field(n.ie, 'InsertEntity', 'node_to_mutate').v, 'NodeToMutate', 'id').v)
     d = dict(id=c.atom(nid, 'uid'), date=c.int(date), entity=c.atom(n.entity, 'ent'), room=None if n.room is None else c.atom(n.room, 'room'))
     over = False
+    rel = 'lt'
     if n.has_node:
-        over = bool(z3.is_true(m.eval(z3.UGT(n.size.z(), info['max_size'].z()), model_completion=True)))
-        d['node'] = dict(room=d['room'], cdate=0, mdate=c.int(date), short='9.9', author=c.atom(caller, 'key'),
-                         json=('{"pad":"%s"}' % ('x' * 600)) if over else '{}')
+        rel = size_relation(m, n.size, info['max_size'])
+        over = rel == 'gt'
+        d['node'] = dict(room=d['room'], cdate=0, mdate=c.int(date), short='9.9', author=c.atom(caller, 'key'), json='{}')
     else:
         d['node'] = None
     if n.old:
-        d['old'] = dict(room=None if n.old_room is None else c.atom(n.old_room, 'room'), cdate=0, mdate=0, short='9.9',
+        d['old'] = dict(room=None if n.old_room is None else c.atom(n.old_room, 'room'), cdate=0, mdate=c.int(n.old_mdate) if getattr(n, 'old_mdate', None) is not None else 0, short='9.9',
                         author=c.atom(n.old_author, 'key'))
     else:
         d['old'] = None
@@ -283,7 +286,7 @@ def scenario_mutation(ctx, m, kind, info):
         subs['field%d' % ei] = lst
     d['subs'] = subs
     sc = dict(kind='entity_mutation', property='C01', rooms=[c.room(ev) for ev in rooms_ev], caller=c.atom(caller, 'key'),
-              max_node_size=400 if over else 1 << 40, tree=d)
+              size_rel=rel, tree=d)
     if kind == 'panic':
         sc['expect'] = dict(result='panic')
         return sc
@@ -502,14 +505,202 @@ def scenario_deletion(ctx, m, kind, info):
 
 
 # =============================================================================================
+# part 'room': RoomAuthorisations::validate_room_mutation / validate_authorisation_mutation
+
+def room_shapes(tier):
+    out = []
+    for mode in ('create', 'update'):
+        for adm in (0, 1):
+            for grp in ('none', 'existing', 'new'):
+                if mode == 'create' and grp == 'existing':
+                    continue
+                combos = [(0, 0, 0)] if grp == 'none' else [(r, u, a) for r in (0, 1) for u in (0, 1) for a in (0, 1)]
+                for (r, u, a) in combos:
+                    if adm + r + u + a == 0 and grp != 'new':
+                        continue
+                    if tier == 'quick' and adm + r + u + a > 2:
+                        continue
+                    out.append(dict(part='room', mode=mode, admin=adm, group=grp, rights=r, users=u, user_admins=a))
+    return out
+
+
+def leaf_insert(w, tag, row_node):
+    nid = w.field(row_node, 'Node', 'id').v
+    ntm = w.struct('NodeToMutate', id=nid, date=w.field(row_node, 'Node', 'mdate').v, entity=S(lit='sys.UserAuth'), room_id=none(), node=some(row_node),
+                   node_fts_str=none(), old_node=none(), old_fts_str=none(), enable_full_text=True)
+    return w.struct('InsertEntity', name=S(lit=tag), node_to_mutate=ntm, edge_deletions=VecV(), edge_deletions_log=VecV(), edge_insertions=VecV(), sub_nodes=MapV())
+
+
+def explore_room(ctx, shape, tier, report):
+    from . import c10
+    spec1, spec2 = SPECS[tier][0]
+    vrm = ctx.method('RoomAuthorisations', 'validate_room_mutation')
+
+    def path(ctx):
+        w = World(ctx)
+        caller = w.atom('caller', KEYS, 'bytes', n=33)
+        r1, ev1 = build_room(w, ROOMS[0], spec1, KEYS, ENTS, 'r1')
+        old_snapshot = clone_val(r1.v)
+        rooms = MapV([[ROOMS[0], r1]])
+        ra = w.struct('RoomAuthorisations', signing_key=w.signing_key(caller), rooms=rooms, max_node_size=w.u64('max'))
+        date = w.i64('op_date')
+        update = shape['mode'] == 'update'
+        rid = ROOMS[0] if update else ROOMS[2]
+        added = dict(admins=[], groups={})
+        subs = MapV()
+        if shape['admin']:
+            k, d, e = w.atom('new_adm_key', KEYS, 'bytes', n=33), w.i64('new_adm_date'), w.boolean('new_adm_en')
+            un, nid = c10.user_row(ctx, w, 'newadm', k, d, e, caller)
+            subs.entries.append([S(lit='admin'), Cell(VecV([Cell(leaf_insert(w, 'admin', w.field(un, 'UserNode', 'node').v))]))])
+            added['admins'].append((k, d, e))
+        gev = None
+        if shape['group'] != 'none':
+            existing = shape['group'] == 'existing'
+            gid = ev1.groups[0].id if existing else S(lit=b'NEWGROUP'.ljust(16, b'.'))
+            gsubs = MapV()
+            gadd = dict(rights=[], users=[], user_admins=[])
+            if shape['rights']:
+                en, d, ms, ma = w.atom('new_rgt_ent', ENTS, 'str'), w.i64('new_rgt_date'), w.boolean('new_rgt_ms'), w.boolean('new_rgt_ma')
+                rn, nid = c10.right_row(ctx, w, 'newrgt', en, d, ms, ma, caller)
+                gsubs.entries.append([S(lit='rights'), Cell(VecV([Cell(leaf_insert(w, 'rights', w.field(rn, 'EntityRightNode', 'node').v))]))])
+                gadd['rights'].append((en, d, ms, ma))
+            for fld, flag, tagk in (('users', shape['users'], 'usr'), ('user_admin', shape['user_admins'], 'uad')):
+                if flag:
+                    k, d, e = w.atom('new_%s_key' % tagk, KEYS, 'bytes', n=33), w.i64('new_%s_date' % tagk), w.boolean('new_%s_en' % tagk)
+                    un, nid = c10.user_row(ctx, w, 'new' + tagk, k, d, e, caller)
+                    gsubs.entries.append([S(lit=fld), Cell(VecV([Cell(leaf_insert(w, fld, w.field(un, 'UserNode', 'node').v))]))])
+                    gadd['users' if fld == 'users' else 'user_admins'].append((k, d, e))
+            gnode = w.node(id=gid, room_id=None, cdate=date, mdate=date, entity=S(lit='0.1'), author=caller, json=w.atom('g_json', None, 'str'))
+            gold = w.node(id=gid, room_id=None, cdate=date, mdate=w.i64('g_old_mdate'), entity=S(lit='0.1'), author=caller) if existing else None
+            gntm = w.struct('NodeToMutate', id=gid, date=date, entity=S(lit='sys.Authorisation'), room_id=none(), node=some(gnode), node_fts_str=none(),
+                            old_node=w.opt(gold), old_fts_str=none(), enable_full_text=True)
+            gie = w.struct('InsertEntity', name=S(lit='authorisations'), node_to_mutate=gntm, edge_deletions=VecV(), edge_deletions_log=VecV(), edge_insertions=VecV(),
+                           sub_nodes=gsubs)
+            subs.entries.append([S(lit='authorisations'), Cell(VecV([Cell(gie)]))])
+            added['groups'][gid.lit] = gadd
+        rnode = w.node(id=rid, room_id=None, cdate=date, mdate=date, entity=S(lit='0.0'), author=caller, json=w.atom('room_json', None, 'str'))
+        rold = w.node(id=rid, room_id=None, cdate=date, mdate=w.i64('room_old_mdate'), entity=S(lit='0.0'), author=caller) if update else None
+        rntm = w.struct('NodeToMutate', id=rid, date=date, entity=S(lit='sys.Room'), room_id=none(), node=some(rnode), node_fts_str=none(), old_node=w.opt(rold),
+                        old_fts_str=none(), enable_full_text=True)
+        ie = w.struct('InsertEntity', name=S(lit='room'), node_to_mutate=rntm, edge_deletions=VecV(), edge_deletions_log=VecV(), edge_insertions=VecV(), sub_nodes=subs)
+        info = dict(part='room', shape=shape, rooms=[ev1], caller=caller, date=date, added=added)
+        ctx.map_order = 'all'
+        try:
+            res = ctx.exec_fn(vrm, [Ref(Cell(ra)), Ref(Cell(ie), True), Ref(Cell(caller))])
+        except Panic as p:
+            report.panic(ctx, w, p, info)
+            return
+        finally:
+            ctx.map_order = 'fixed'
+        accepted = res.variant == 0 and deref(res.fields[0].v).variant == 1
+        report.path(accepted)
+        if report.want_sample(accepted):
+            ms = ctx.check_sat(True)
+            if ms is not None:
+                sc = scenario_room(ctx, ms, 'sample', info)
+                sc['expect'] = dict(result='Ok' if res.variant == 0 else 'Err')
+                report.sample(sc)
+        # the registered room is never touched by validation
+        same = deep_eq_rooms(r1.v, old_snapshot)
+        if same is not True:
+            mm = ctx.check_sat(znot(zb(same)))
+            if mm is not None:
+                info['problem'] = 'the registered room was modified by a validation'
+                report.violation(ctx, mm, 'room-mutation', info)
+                return
+        if not accepted:
+            report.witness('rejected')
+            return
+        newroom = deref(res.fields[0].v).fields[0].v
+        conds = []
+        if update:
+            # (a) only an admin of the room as it was may change its definition
+            conds.append(('caller is not an admin of the room being changed', is_admin(ev1, caller, date)))
+            # (b) nothing that existed is removed or altered: every old list is a prefix of the new one
+            pres = prefix_preserved(w, old_snapshot, newroom)
+            if pres is not True:
+                conds.append(('an existing entry was removed or altered', zb(pres)))
+        else:
+            # creation: when the definition has any content the creator must be an admin of what it creates
+            if shape['admin'] or shape['rights'] or shape['users'] or shape['user_admins']:
+                evn = RoomEvents(rid)
+                evn.admins = list(added['admins'])
+                conds.append(('room created by a key that is not one of its admins', is_admin(evn, caller, date)))
+        for label, c in conds:
+            m = ctx.check_sat(znot(c))
+            if m is not None:
+                info['problem'] = label
+                report.violation(ctx, m, 'room-mutation', info)
+                return
+        report.witness('accepted')
+
+    ctx.explore(path)
+
+
+def deep_eq_rooms(a, b):
+    from .c15 import deep_eq
+    return deep_eq(a, b)
+
+
+def prefix_preserved(w, old_room, new_room):
+    """every (key -> history) of the old room is a prefix of the same history in the new room"""
+    from .c15 import deep_eq
+    res = True
+
+    def lists_prefix(om, nm):
+        nonlocal res
+        for k, c in deref(om).entries:
+            hit = [c2 for k2, c2 in deref(nm).entries if deep_eq(k, k2) is True]
+            if len(hit) != 1:
+                res = False
+                return
+            ol, nl = deref(c.v).elems, deref(hit[0].v).elems
+            if len(nl) < len(ol):
+                res = False
+                return
+            for x, y in zip(ol, nl):
+                res = b_and(res, deep_eq(x.v, y.v))
+    lists_prefix(w.field(old_room, 'Room', 'admins').v, w.field(new_room, 'Room', 'admins').v)
+    oa, na = deref(w.field(old_room, 'Room', 'authorisations').v), deref(w.field(new_room, 'Room', 'authorisations').v)
+    for k, c in oa.entries:
+        hit = [c2 for k2, c2 in na.entries if deep_eq(k, k2) is True]
+        if len(hit) != 1:
+            return False
+        for fld in ('users', 'rights', 'user_admins'):
+            lists_prefix(w.field(c.v, 'Authorisation', fld).v, w.field(hit[0].v, 'Authorisation', fld).v)
+    return res
+
+
+def scenario_room(ctx, m, kind, info):
+    c = Concretizer(m)
+    sh = info['shape']
+    added = info['added']
+    sc = dict(kind='room_mutation', property='C01', rooms=[c.room(ev) for ev in info['rooms']], caller=c.atom(info['caller'], 'key'), date=c.int(info['date']),
+              mode=sh['mode'], group=sh['group'],
+              admins=[[c.atom(k), c.int(d), c.bool(e)] for k, d, e in added['admins']],
+              groups={k.decode(): dict(rights=[[c.atom(en), c.int(d), c.bool(ms), c.bool(ma)] for en, d, ms, ma in g['rights']],
+                                       users=[[c.atom(k2), c.int(d), c.bool(e)] for k2, d, e in g['users']],
+                                       user_admins=[[c.atom(k2), c.int(d), c.bool(e)] for k2, d, e in g['user_admins']]) for k, g in added['groups'].items()})
+    if kind == 'sample':
+        return sc
+    if kind == 'panic':
+        sc['expect'] = dict(result='panic')
+        return sc
+    sc['expect'] = dict(result='Ok')
+    sc['what'] = 'validate_room_mutation accepts a %s although: %s' % (sh['mode'], info.get('problem', kind))
+    sc['signature'] = 'room-mutation:%s:%s' % (sh['mode'], info.get('problem', kind))
+    return sc
+
+
+# =============================================================================================
 
 def shapes(tier):
-    return mutation_shapes(tier) + deletion_shapes(tier)
+    return mutation_shapes(tier) + deletion_shapes(tier) + room_shapes(tier)
 
 
 def explore(ctx, shape, tier, report):
-    return {'mutation': explore_mutation, 'deletion': explore_deletion}[shape['part']](ctx, shape, tier, report)
+    return {'mutation': explore_mutation, 'deletion': explore_deletion, 'room': explore_room}[shape['part']](ctx, shape, tier, report)
 
 
 def scenario(ctx, m, kind, info):
-    return {'mutation': scenario_mutation, 'deletion': scenario_deletion}[info['part']](ctx, m, kind, info)
+    return {'mutation': scenario_mutation, 'deletion': scenario_deletion, 'room': scenario_room}[info['part']](ctx, m, kind, info)
